@@ -119,6 +119,8 @@ type FS struct {
 	Trace         []Event  // recorded events if RecordTrace
 	RecordTrace   bool
 	ReadBudget    func(name string, size int) int // optional per-handle ReadAt budget
+	// PostRead, if set, runs after every ReadAt has filled p (outside the lock).
+	PostRead func(name string, p []byte, off int64, n int, err error)
 }
 
 func New() *FS {
@@ -339,12 +341,18 @@ func (h *handle) WriteAt(p []byte, off int64) (int, error) {
 	return n, err
 }
 
-func (h *handle) ReadAt(p []byte, off int64) (int, error) {
+func (h *handle) ReadAt(p []byte, off int64) (n int, err error) {
 	if _, _, err := h.fs.begin(KReadAt, h.name, off, len(p)); err != nil {
 		return 0, err
 	}
 	h.fs.mu.Lock()
-	defer h.fs.mu.Unlock()
+	post := h.fs.PostRead
+	defer func() {
+		h.fs.mu.Unlock()
+		if post != nil {
+			post(h.name, p, off, n, err) // outside the lock: the hook may park the reader with its buffer filled
+		}
+	}()
 	if h.closed {
 		return 0, os.ErrClosed
 	}
@@ -360,7 +368,7 @@ func (h *handle) ReadAt(p []byte, off int64) (int, error) {
 	if off >= h.ino.size {
 		return 0, io.EOF
 	}
-	n := len(p)
+	n = len(p)
 	if int64(n) > h.ino.size-off {
 		n = int(h.ino.size - off)
 	}
